@@ -344,6 +344,9 @@ func (c10) Exec(sc *Scenario, st *Stats) *Violation {
 			return &Violation{Class: class, Task: 0, Op: oi, Sig: "C10/" + class + "/" + op.Kind + "/" + sigExtra,
 				Detail: fmt.Sprintf("%s on %d-byte document %q (class %s) tape %v: %s", op.Kind, len(data), clip(string(data), 60), d.Class, clipInts(op.Tape, 12), detail)}
 		}
+		if strings.HasPrefix(out.Panic, "sim-handler-panic") {
+			continue // the handler's own panic, recovered by the caller: not the library's
+		}
 		if out.Panic != "" {
 			class := "panic"
 			if strings.HasPrefix(out.Panic, "livelock") {
